@@ -25,14 +25,19 @@ CLAIM = dict(
           "diamonds, a leaf reached through both operands at different depths, subtract/divide/power with mirrored operands, operand "
           "ids that are permutations or have equal sums, 8 random DAGs): node count and names, edge MULTISET, number of distinct ids "
           "against the DAG model (C14_dag_graph: distinct nodes, no edge twice, edges exactly operand->operation; C14_dag_in_degree: "
-          "in-edges of an operation = its distinct operands, each once)."),
+          "in-edges of an operation = its distinct operands, each once); and 37 attribute-carrying views (every get_function_t "
+          "specialisation that compiles: indexing views transpose/moveaxis/reshape/broadcast_to/tile/repeat/flip/roll/expand_dims/slice, "
+          "max/avg_pool2d with kernel, stride and BOTH ceil_mode values, reductions with axis/axes, dtype, initial, keepdims, "
+          "cumsum/cumprod, seven parameterised activations, matmul, where, concatenate(axis), depth-2 compositions) with NON-default "
+          "attribute values: apply(extraction) must equal the view in shape and every element, and the view's shape the generator's."),
     ref="5.14", technique="Coq proof (stack-machine compilation, induction on trees / chunk lists) + differential correspondence", extra="")
 RULE = ("36 pipelines (single functors with/without attributes, compositions of 2..4 functors, binary functors in every position, "
         "both parenthesisations; pipelines ending in every combinator swap/dup/dig1..3/bury1..3 followed by the non-commutative "
         "subtract/matmul, and a combinator in the middle) x EVERY split of the operands into calls, including every split that "
         "supplies one operand more than the pipeline consumes in the completing call (result = operand tuple) x random square operands; 30 view "
         "trees depth 1..4 x leaf kinds (run-time shaped ndarray; fixed_ndarray for the binary-ufunc trees) x random operands; 24 view "
-        "DAGs (16 hand-written patterns + 8 from a seeded generator) compared on node set, edge multiset and id distinctness. "
+        "DAGs (16 hand-written patterns + 8 from a seeded generator) compared on node set, edge multiset and id distinctness; 37 "
+        "attribute-carrying views x random non-default attribute values (3 per view in the quick tier). "
         "non-trivial = composition of >= 2 functors or tree of depth >= 2; distinct = distinct case lines")
 THEOREM_STATUS = {"proved": ["C14_curry_any_split", "C14_compose_apply", "C14_compose_assoc", "C14_compose_two", "C14_combinators",
                              "C14_extraction_correct_on_domain", "C14_operands_are_leaves", "C14_graph_nodes_edges",
@@ -53,7 +58,9 @@ def drivers(tier):
     # asan: -O0 -g0 (compile time; the sanitizer checks are the same)
     # c14g (view DAGs; the graph is computed at compile time) has two tables = two builds of the same source, one per
     # group (different flavours so that the binary cache keeps both): 3 compile jobs per group
-    return {"c14": [("c14.cpp", "ndebug", ()), ("c14.cpp", "asan", ("-O0", "-g0")), ("c14g.cpp", "ndebug", ("-DC14G_PART=1",))],
+    # c14a (extraction of attribute-carrying views) takes the place of the asan build of c14.cpp (functor pipelines are pure
+    # value code; the asan flavour stays on the extraction driver c14x, where the lifetime defect was found)
+    return {"c14": [("c14.cpp", "ndebug", ()), ("c14a.cpp", "ndebug", ()), ("c14g.cpp", "ndebug", ("-DC14G_PART=1",))],
             "c14x": [("c14x.cpp", "ndebug", ()), ("c14x.cpp", "asan", ("-O0", "-g0")), ("c14g.cpp", "debug", ("-DC14G_PART=2",))]}
 
 
@@ -106,6 +113,76 @@ def graph_ok(t):
     return all(graph_ok(a) for a in t[1])
 
 
+# ---------------------------------------------------------------- attribute-carrying views (drivers/c14a.cpp)
+def _size(sh):
+    n = 1
+    for e in sh: n *= e
+    return n
+def attr_cases(rng, reps):
+    """-> [(name, a_shape, b_shape, params, expected view shape, data kind)]; attribute values are NON-default and chosen so
+    that the default (reverse-all transpose, axis 0, keepdims False, ceil_mode False, slope 0.01, ...) gives another result"""
+    out = []
+    def sh(lo, hi, cap=30):
+        while True:
+            s_ = tuple(rng.randint(2, 4) for _ in range(rng.randint(lo, hi)))
+            if _size(s_) <= cap: return s_
+    import itertools as it
+    for _ in range(reps):
+        s3 = tuple(rng.sample([2, 3, 4], 3)); d = 3
+        perms = [p for p in it.permutations(range(3)) if p not in ((0, 1, 2), (2, 1, 0))]
+        P = list(rng.choice(perms)); out.append(("transpose", s3, s3, P, [s3[k] for k in P], "int"))
+        src, dst = rng.choice([(0, 2), (2, 0), (1, 0), (0, 1), (1, 2)])
+        order = [k for k in range(3) if k != src]; order.insert(dst, src)
+        out.append(("moveaxis", s3, s3, [src, dst], [s3[k] for k in order], "int"))
+        out.append(("reshape", s3, s3, [s3[2], s3[0] * s3[1]], [s3[2], s3[0] * s3[1]], "int"))
+        bs = tuple(e if rng.random() < 0.5 else 1 for e in s3); out.append(("broadcast_to", bs, bs, [2] + list(s3), [2] + list(s3), "int"))
+        s2 = sh(2, 2, 12); reps_ = [rng.randint(1, 2), rng.randint(2, 3), rng.randint(1, 2)]
+        out.append(("tile", s2, s2, reps_, [reps_[0], reps_[1] * s2[0], reps_[2] * s2[1]], "int"))
+        ax = rng.randrange(3); r = rng.randint(2, 3)
+        out.append(("repeat", s3, s3, [r, ax], [e * r if k == ax else e for k, e in enumerate(s3)], "int"))
+        ax = rng.randint(1, 2); out.append(("flip", s3, s3, [ax], list(s3), "int"))
+        ax = rng.randint(1, 2); out.append(("roll", s3, s3, [rng.choice([-2, 1, 3]), ax], list(s3), "int"))
+        axes = sorted(rng.sample(range(5), 2)); itr = iter(s3)
+        out.append(("expand_dims", s3, s3, axes, [1 if k in axes else next(itr) for k in range(5)], "int"))
+        h, w = rng.randint(4, 6), rng.randint(4, 6)
+        a0, a1 = rng.randint(0, 1), rng.randint(0, 1); st0, st1 = rng.randint(1, 2), rng.randint(2, 3)
+        b0, b1 = rng.randint(a0 + 2, h), rng.randint(a1 + 2, w)
+        out.append(("slice2", (h, w), (h, w), [a0, b0, st0, a1, b1, st1], [-(-(b0 - a0) // st0), -(-(b1 - a1) // st1)], "int"))
+        # pooling: (N, C, H, W); ceil_mode matters exactly when the last window is partial (and it must not be empty)
+        while True:
+            H, W = rng.randint(5, 9), rng.randint(5, 9); k0, k1 = rng.randint(2, 3), rng.randint(2, 3); t0, t1 = rng.randint(2, 3), rng.randint(2, 3)
+            fl = [(H - k0) // t0 + 1, (W - k1) // t1 + 1]; ce = [-(-(H - k0) // t0) + 1, -(-(W - k1) // t1) + 1]
+            if ce != fl and (ce[0] - 1) * t0 < H and (ce[1] - 1) * t1 < W and H * W <= 64: break
+        shp = (1, rng.randint(1, 2), H, W); P = [k0, k1, t0, t1]
+        for nm_, o in (("max_pool2d_ceil", ce), ("max_pool2d_floor", fl), ("avg_pool2d_ceil", ce), ("avg_pool2d_floor", fl), ("tanh_max_pool2d_ceil", ce)):
+            out.append((nm_, shp, shp, P, [shp[0], shp[1]] + o, "float"))
+        # reductions / accumulations
+        ax = rng.randint(1, 2); keep = [1 if k == ax else e for k, e in enumerate(s3)]; drop = [e for k, e in enumerate(s3) if k != ax]
+        out.append(("sum_keep", s3, s3, [ax, rng.choice([-7, 5, 100])], keep, "int"))
+        out.append(("sum_nokeep", s3, s3, [ax, rng.choice([-7, 5, 100])], drop, "int"))
+        out.append(("sum_f64", s3, s3, [ax, rng.choice([-7, 5])], keep, "int"))
+        axs = sorted(rng.sample(range(3), 2)); out.append(("sum_axes", s3, s3, axs, [e for k, e in enumerate(s3) if k not in axs], "int"))
+        out.append(("prod_keep", s3, s3, [ax, rng.choice([2, -3])], keep, "small"))
+        out.append(("amax_init", s3, s3, [ax, rng.choice([0, 4, 50])], keep, "int"))
+        out.append(("cumsum", s3, s3, [ax], list(s3), "int"))
+        out.append(("cumprod", s3, s3, [ax], list(s3), "small"))
+        # parameterised unary ufuncs (parameters in quarters)
+        s_ = sh(1, 3)
+        for nm_, P in (("leaky_relu", [rng.choice([-6, 1, 2, 10])]), ("elu", [rng.choice([2, 8, 10])]), ("celu", [rng.choice([2, 8, 10])]),
+                       ("hardtanh", [4 * rng.choice([-12, -5, -2]), 4 * rng.choice([1, 3, 7])]), ("hardshrink", [rng.choice([6, 12, 30])]),
+                       ("softshrink", [rng.choice([2, 6, 12])]), ("softplus", [rng.choice([2, 8]), rng.choice([8, 40])]),
+                       ("leaky_relu_of_add", [rng.choice([-6, 2, 10])])):
+            out.append((nm_, s_, s_, P, list(s_), "act"))
+        s2 = sh(2, 3); ax = rng.randrange(len(s2))
+        out.append(("sum_of_hardtanh", s2, s2, [-12, 12, ax], [1 if k == ax else e for k, e in enumerate(s2)], "act"))
+        n, m, k = rng.randint(2, 3), rng.randint(2, 4), rng.randint(2, 3)
+        out.append(("matmul", (n, k), (k, m), [], [n, m], "int"))
+        out.append(("where", s3, s3, [], list(s3), "bool"))
+        ax = rng.randint(1, 2); sb = tuple(e + 1 if k_ == ax else e for k_, e in enumerate(s3))
+        out.append(("concatenate", s3, sb, [ax], [s3[k_] + sb[k_] if k_ == ax else s3[k_] for k_ in range(3)], "int"))
+    return out
+
+
 def A(sh, data): return "A:%s:%s" % (",".join(map(str, sh)), ",".join(map(str, data)))
 def rnd(rng, n, lo=-4, hi=9): return A((n, n), [rng.randint(lo, hi) for _ in range(n * n)])
 
@@ -126,6 +203,14 @@ def gen_cases(rng, tier):
             n = rng.choice([1, 2, 2, 3, 3])
             stream = "trees-wf" if wf(parse(name)) else "trees-outside-wf"
             out.append((stream, "ext S:dyn S:%s S:%s %s %s %s" % ("g1" if g else "g0", name, rnd(rng, n), rnd(rng, n), rnd(rng, n)), "c14x"))
+    for name, sa, sb, P, osh, kind in attr_cases(rng, 3 if tier == "quick" else 25):
+        def data(shp):
+            n = _size(shp)
+            if kind == "act": return [rng.choice([-9, -6, -3, -2, -1, 1, 2, 3, 5, 7, 10]) for _ in range(n)]
+            if kind == "small": return [rng.choice([-2, -1, 1, 2, 3]) for _ in range(n)]
+            if kind == "bool": return [rng.randint(0, 1) * rng.randint(1, 5) for _ in range(n)]
+            return [rng.randint(-9, 20) for _ in range(n)]
+        out.append(("attributes", "attr S:%s %s %s L:%s L:%s" % (name, A(sa, data(sa)), A(sb, data(sb)), ",".join(map(str, P)), ",".join(map(str, osh))), "c14"))
     for prog in DAGS1: out.append(("dags", "dag S:%s" % prog, "c14"))
     for prog in DAGS2: out.append(("dags-random", "dag S:%s" % prog, "c14x"))
     for name in FIXTREES:
@@ -141,6 +226,7 @@ def nontrivial(line):
     if p[0] == "pipe": return "*" in p[1]
     if p[0] == "ext": return depth(parse(p[3][2:])) >= 2
     if p[0] == "dag": return p[1].count(";") >= 3
+    if p[0] == "attr": return True
     return False
 
 
